@@ -65,6 +65,12 @@ def handle (toks : List String) : Option String := do
     let os ← (ops.splitOn ";").foldlM step []
     some (showList showOrder os)
   | ["live.calls", errors] => some (toString (callsMade (← errors.toNat?) {}))
+  | ["live.adopt", kind, price, size, liab, pers] =>
+    let k ← (match kind with | "LIMIT" => some CoKind.limit | "LIMIT_ON_CLOSE" => some .limitOnClose | "MARKET_ON_CLOSE" => some .marketOnClose | _ => none)
+    let a := adoptType { kind := k, price := ← parseRat? price, size := ← parseRat? size, bspLiability := ← parseRat? liab, persistence := pers }
+    let sh (x : Option Rat) : String := match x with | some r => showRat r | none => "."
+    some (" ".intercalate [(match a.kind with | .limit => "LIMIT" | .limitOnClose => "LIMIT_ON_CLOSE" | .marketOnClose => "MARKET_ON_CLOSE"),
+      sh a.price, sh a.size, sh a.liability, a.persistence.getD "."])
   | _ => none
 
 end Flumine.DriverLive
